@@ -347,6 +347,8 @@ def explore_net(net, spec, depth, tier, res):
     if depth:
         ex = Explorer(net, lambda n, s: full_ops(n, s), None, config=CONFIG, max_states=400 if depth < 2 else 150)
         prefixes = [h for h in ex.run(depth=depth)]
+        if ex.capped:
+            res["caps"].append({"net": repr(net)[:80], "cap": "max_states"})
         res["states"] += len(ex.states)
         res["transitions"] += ex.transitions
     else:
